@@ -518,6 +518,98 @@ fn tied_files(run: &Run, pool: &Pool) {
     let _ = std::fs::remove_file(&path);
 }
 
+/// Cache files written under looser limits than the ones now in force (another version, another configuration, a flush
+/// without clean-up): one peer with 1..=6 addresses, another with 1..=2, distinct ages. Under every tighter per-peer
+/// limit the loaded cache, and the file a flush with clean-up writes, must respect the limit however large the excess
+/// is — a clean-up that sheds one address at a time only works for an excess of one.
+fn crowded_files(run: &Run) {
+    let dir = mc_core::scratch_root().join("c18-crowded");
+    std::fs::create_dir_all(&dir).unwrap();
+    let (p1, p2) = (pid(1), pid(2));
+    let a1: Vec<Multiaddr> = (0..7).map(|i| format!("/ip4/10.1.0.{}/udp/{}/quic-v1/p2p/{p1}", i + 1, 2200 + i).parse().unwrap()).collect();
+    let a2: Vec<Multiaddr> = (0..2).map(|i| format!("/ip4/10.2.0.{}/udp/{}/quic-v1/p2p/{p2}", i + 1, 2300 + i).parse().unwrap()).collect();
+    let path = dir.join("cache.json");
+    let mut n = 0u64;
+    let mut excess_seen = 0usize;
+    for n1 in 1..=6usize {
+        for n2 in 1..=2usize {
+            // written by a real store under the default limits (6 addresses per peer), entries 400 us apart
+            let loose = BootstrapCacheConfig::empty().with_cache_path(&path);
+            let _ = std::fs::remove_file(&path);
+            let mut w = BootstrapCacheStore::new(loose).unwrap();
+            for a in a1.iter().take(n1).chain(a2.iter().take(n2)) {
+                std::thread::sleep(Duration::from_micros(400));
+                w.add_addr(a.clone());
+            }
+            w.write().unwrap();
+            let content = std::fs::read_to_string(&path).unwrap();
+            if read_raw(&path).len() != n1 + n2 {
+                run.machinery_error("crowded-files: the prepared file does not hold the addresses it was built from");
+            }
+            for max_addrs in 1..=5usize {
+                for op in ["load", "flush-with-cleanup", "add-then-flush-with-cleanup", "flush-without-cleanup-then-load", "fresh-addresses-then-flush-with-cleanup"] {
+                    let desc = json!({"engine": "crowded-files", "p1_addrs": n1, "p2_addrs": n2, "max_addrs": max_addrs, "op": op});
+                    run.case(desc.to_string().as_bytes(), n1 > max_addrs);
+                    n += 1;
+                    excess_seen = excess_seen.max(n1.saturating_sub(max_addrs));
+                    std::fs::write(&path, &content).unwrap();
+                    let cfg = BootstrapCacheConfig::empty().with_cache_path(&path).with_max_peers(5).with_addrs_per_peer(max_addrs).with_addr_expiry_duration(Duration::from_secs(86400));
+                    let r = catch(|| {
+                        let mut st = BootstrapCacheStore::new(cfg.clone()).expect("store");
+                        match op {
+                            "load" => {}
+                            "flush-with-cleanup" => drop(st.sync_and_flush_to_disk(true)),
+                            "add-then-flush-with-cleanup" => {
+                                st.add_addr(a1[6].clone());
+                                drop(st.sync_and_flush_to_disk(true));
+                            }
+                            "fresh-addresses-then-flush-with-cleanup" => {
+                                // the driver's rhythm: an empty in-memory cache filled one address at a time, then merged with the file
+                                let mut fresh = BootstrapCacheStore::new(cfg.clone()).expect("store");
+                                for a in a1.iter().rev().take(max_addrs) {
+                                    std::thread::sleep(Duration::from_micros(400));
+                                    fresh.add_addr(a.clone());
+                                }
+                                drop(fresh.sync_and_flush_to_disk(true));
+                            }
+                            _ => drop(st.sync_and_flush_to_disk(false)),
+                        }
+                        BootstrapCacheStore::load_cache_data(&cfg).map(|d| d.peers.values().map(|a| a.0.len()).max().unwrap_or(0))
+                    });
+                    match r {
+                        Err(p) => run.violation("no-panic", "crowded-file", format!("{desc}: {p}"), desc),
+                        Ok(Err(e)) => run.violation("saved-file-loads", "crowded-file", format!("{desc}: {e:?}"), desc),
+                        Ok(Ok(addrs)) => {
+                            if addrs > max_addrs {
+                                run.violation("bounded", "loaded-addrs-per-peer-crowded", format!("a cache file holding {n1} addresses of one peer loads with {addrs} of them under a limit of {max_addrs} ({desc})"), desc.clone());
+                            }
+                            if op.contains("with-cleanup") {
+                                let raw = read_raw(&path);
+                                let mut per_peer: BTreeMap<&str, usize> = BTreeMap::new();
+                                for e in &raw {
+                                    *per_peer.entry(e.0.as_str()).or_default() += 1;
+                                }
+                                let worst = per_peer.values().max().cloned().unwrap_or(0);
+                                if worst > max_addrs {
+                                    run.violation("bounded", "file-addrs-per-peer-crowded", format!("the file written by a flush with clean-up holds {worst} addresses of one peer, limit {max_addrs} ({desc})"), desc.clone());
+                                }
+                                if raw.is_empty() {
+                                    run.violation("merge-keeps-everything", "crowded-file-emptied", format!("a flush with clean-up over a crowded file wrote no address at all ({desc})"), desc.clone());
+                                }
+                            }
+                        }
+                    }
+                }
+            }
+        }
+    }
+    if excess_seen < 3 {
+        run.machinery_error("crowded-files: no case exceeds its limit by three or more");
+    }
+    run.extra("crowded_files", json!({"cases": n, "largest_excess_over_the_limit": excess_seen}));
+    let _ = std::fs::remove_dir_all(&dir);
+}
+
 pub fn main(tier: Option<&str>) {
     let run = Run::new("C18", "model_checking", tier);
     run.rule(
@@ -526,7 +618,9 @@ pub fn main(tier: Option<&str>) {
          one of 3 prepared files (fresh reliable, fresh with an unreliable address, two days old); depth 4(5); 8 configurations \
          (max_peers 1|2 x max_addrs 1|2 x expiry 0|1 day); state key = memory and file entries with last_seen reduced to rank + expired flag. \
          (F2) every truncation and every 3rd(every) byte substituted by 5 boundary bytes in a valid file, 7 foreign shapes. \
-         (T) 3 cache files whose entries all carry the same last_seen x max_peers 1|2|3 x max_addrs 1|2 x 2 expiries x {load, flush with clean-up, add then flush, flush without clean-up then load}: limits only.",
+         (T) 3 cache files whose entries all carry the same last_seen x max_peers 1|2|3 x max_addrs 1|2 x 2 expiries x {load, flush with clean-up, add then flush, flush without clean-up then load}: limits only. \
+         (C) 12 cache files written by a real store under the default limits (one peer with 1..=6 addresses, another with 1..=2) x per-peer limit 1..=5 x \
+         {load, flush with clean-up, add then flush, flush without clean-up then load, an empty cache filled one address at a time then flushed}: per-peer limit on the loaded cache and on the raw file.",
     );
     run.assume("which of several equally old peers clean-up drops depends on HashMap order: not judged (only counts and cleanliness are)");
     run.assume("last_seen values enter the state key as ranks plus an expired flag: the code only compares them with each other and with now - expiry");
@@ -548,6 +642,7 @@ pub fn main(tier: Option<&str>) {
     }
     corrupt_files(&run, &pool);
     tied_files(&run, &pool);
+    crowded_files(&run);
     crate::c18fs::run_fs_interleavings(&run);
     run.finish();
 }
